@@ -22,6 +22,7 @@ import (
 	"strconv"
 	"strings"
 	"sync"
+	"sync/atomic"
 	"time"
 )
 
@@ -33,6 +34,7 @@ type Parked struct {
 	State string `json:"state"`
 	Line  int    `json:"line"`
 	Fn    string `json:"fn"`
+	Top   string `json:"top"`
 }
 
 type Event struct {
@@ -115,7 +117,7 @@ type exec struct {
 	retSite int
 }
 
-var cur *exec
+var curp atomic.Pointer[exec]
 
 type ctxKey struct{}
 
@@ -128,7 +130,7 @@ func (e *exec) log(ev Event) {
 
 // Enter is called first thing by every instrumented provider.  It returns the verdict chosen by the scheduler.
 func Enter(p string, args ...string) bool {
-	e := cur
+	e := curp.Load()
 	e.mu.Lock()
 	e.ncall[p]++
 	n := e.ncall[p]
@@ -153,7 +155,7 @@ func Enter(p string, args ...string) bool {
 // Mark records the return site (source line of the generated file) the injector is leaving through.  Inserted by the
 // harness into a copy of the generated file in front of every return statement; semantics-preserving.
 func Mark(line int) {
-	e := cur
+	e := curp.Load()
 	e.mu.Lock()
 	if e.retSite == 0 {
 		e.retSite = line
@@ -163,7 +165,7 @@ func Mark(line int) {
 
 // MarkG is the same for return statements inside goroutine bodies (logged as events; used for blame only).
 func MarkG(line int) {
-	e := cur
+	e := curp.Load()
 	e.mu.Lock()
 	e.log(Event{Ev: "GRet", Site: line})
 	e.mu.Unlock()
@@ -189,7 +191,7 @@ func CtxTerm(ctx context.Context) string {
 	if ctx == nil {
 		return "ctx:nil"
 	}
-	if tok, _ := ctx.Value(ctxKey{}).(*int); tok != nil && tok == cur.token {
+	if tok, _ := ctx.Value(ctxKey{}).(*int); tok != nil && tok == curp.Load().token {
 		return "ctx"
 	}
 	return "ctx:foreign"
@@ -272,7 +274,7 @@ func dumpStacks() []ginfo {
 }
 
 var blockedStates = map[string]bool{
-	"chan receive": true, "select": true, "sync.WaitGroup.Wait": true, "semacquire": true,
+	"chan receive": true, "select": true, "sync.WaitGroup.Wait": true,
 	"chan receive (nil chan)": true, "select (no cases)": true, "chan send": true, "chan send (nil chan)": true,
 }
 
@@ -305,6 +307,12 @@ func quiesce(e *exec, genFile string, ignore map[int]bool, self string) ([]Parke
 			}
 			// parked outside a gate: report the innermost frame that lies in the generated file, if any
 			pk := Parked{G: g.id, State: g.state}
+			if len(g.funcs) > 0 {
+				pk.Top = g.funcs[0]
+				if k := strings.LastIndex(pk.Top, "("); k > 0 {
+					pk.Top = pk.Top[:k]
+				}
+			}
 			for j, f := range g.files {
 				if strings.HasSuffix(f, genFile) {
 					pk.Line = g.lines[j]
@@ -435,7 +443,7 @@ var leaked = map[int]bool{}
 func runOne(cfg *Config, tr int, mode string, prefix []string, pick func(opts []string) string) runOut {
 	tok := new(int)
 	e := &exec{tr: tr, gates: map[string]*gate{}, ncall: map[string]int{}, token: tok}
-	cur = e
+	curp.Store(e)
 	base, cancel := context.WithCancel(context.Background())
 	ctx := context.WithValue(base, ctxKey{}, tok)
 	defer cancel()
@@ -590,14 +598,7 @@ func runOne(cfg *Config, tr int, mode string, prefix []string, pick func(opts []
 	// quiet again and ignore whatever is then still parked (by goroutine id) in later executions
 	cancel()
 	if !out.dead {
-		for i := 0; i < 3; i++ {
-			e.mu.Lock()
-			for k := range e.gates { // goroutines of this execution that reached a new provider after cleanup
-				delete(e.gates, k)
-			}
-			e.mu.Unlock()
-			quiesceAll()
-		}
+		quiesceAll()
 	}
 	return out
 }
